@@ -64,7 +64,9 @@ class Contract:
         self.strict_index: list[str] = []
         self.local_contracts: dict[str, 'Contract'] = {}
         self.replay_fields: list[str] = []
-        self.unmodelled: list[str] = []  # receivers whose mutation is outside the modelled state
+        self.unmodelled: list[str] = []
+        self.present_attrs: list[str] = []
+        self.unique_dispatch = False  # receivers whose mutation is outside the modelled state
 
     # -- declaration helpers -------------------------------------------------
     def param(self, name: str, spec: str):
